@@ -270,6 +270,15 @@ def run(pid, tier, args):
                 elif p[0] == "DONE":
                     v.validated(int(p[1]))
             v.notes["generated_lexers"] = "%d definitions compiled and run with %d extra calls" % (len(gcases), extra)
+            # long inputs ending in runs of invalid bytes (error texts quote the remaining input): the clauses of C07 that need no
+            # specification - no panic, no hang, a located error or EOF, also on further calls - for runtime and generated lexers
+            for mk, binp, rp, ids in (("runtime", vhbin, rawpath, byid), ("generated", vhgen, graw, gbyid)):
+                for line in vlib.vh(binp, ["lex-long", rp, str(vlib.seed()), mk], timeout=1200).splitlines():
+                    q = line.split("\t")
+                    if q[0] == "BAD" and q[1] in ids:
+                        v.violation("%s lexer for %s on a long input %s: %s" % (mk, q[1], q[2][:120], q[3][-200:]), {"property": pid, "kind": "lex-long", "maker": mk, "alpha": alpha, "case": ids[q[1]], "input_quoted": q[2], "real": q[3]})
+                    elif q[0] == "DONE":
+                        v.validated(int(q[1]))
         if pid == "C03":
             # B2: realistic stateful lexers (patterns beyond Regex.tla): the regexp outcomes are an oracle table recorded from the
             # standard library; rule choice, stack moves, groups, elision, positions and errors are decided by StatefulLexer!Call
